@@ -254,6 +254,31 @@ private:
     m_wto = std::unique_ptr<wto_t>(new wto_t(f.get_wto().clone()));
   }
 
+  // Return true if the exit block is reachable from every block that
+  // has an unproven assertion.
+  bool unproven_assertions_reach_exit() const {
+    std::set<basic_block_label_t> reach_exit;
+    if (m_cfg.has_exit()) {
+      std::vector<basic_block_label_t> worklist{m_cfg.exit()};
+      reach_exit.insert(m_cfg.exit());
+      while (!worklist.empty()) {
+        basic_block_label_t n = worklist.back();
+        worklist.pop_back();
+        for (basic_block_label_t p : m_cfg.prev_nodes(n)) {
+          if (reach_exit.insert(p).second) {
+            worklist.push_back(p);
+          }
+        }
+      }
+    }
+    for (auto &kv : m_unproven_assertions) {
+      if (reach_exit.count(kv.first) <= 0) {
+        return false;
+      }
+    }
+    return true;
+  }
+
   void gather_assertions() {
     for (auto it = m_cfg.begin(), et = m_cfg.end(); it != et; ++it) {
       for (auto &s : *it) {
@@ -457,6 +482,16 @@ public:
                              << "Found " << m_unproven_assertions.size()
                              << " assertions.\n";);
     crab::CrabStats::stop("CombinedForwardBackward.GatherAssertions");
+
+    if (!only_forward && !unproven_assertions_reach_exit()) {
+      // The backward analysis starts at the exit block: the error
+      // states of an assertion in a block from which the exit block is
+      // unreachable (e.g., a block that ends the execution) are never
+      // propagated, so the refinement would consider them infeasible.
+      CRAB_WARN("cannot run backward analysis because some assertion is in "
+                "a block that cannot reach the exit block");
+      only_forward = true;
+    }
 
     if (!m_unproven_assertions.empty() && !only_forward) {
       crab::CrabStats::resume("CombinedForwardBackward.DominatorTree");
